@@ -87,13 +87,25 @@ Proof. split; reflexivity. Qed.
 Theorem C12_date_found_refuted : exists v, valid_date v = true /\ lex_date (date_format DateStrftime v) = None.
 Proof. exists (999, 1, 2). split; vm_compute; reflexivity. Qed.
 
-(* --- Number: non-negative decimals that str() writes without exponent --------------------------- *)
+(* --- Number: every finite non-negative Decimal (sign 0, canonical coefficient, ANY exponent) ------------
+   _format_value = format(v, 'f') (repo commit 0aeea5a).  "Same value" is Decimal equality, which is numeric:
+   dec_eqb (s1,d1,e1) (s2,d2,e2) compares coef d1 * 10^e1 with coef d2 * 10^e2 (after scaling by the smaller
+   exponent); Decimal('1E+3') == Decimal('1000') although the triples differ.  from_value keeps the assigned
+   object as .value; re-lexing the text gives w with dec_eqb v w, and w = v as a triple whenever the exponent
+   is <= 0 (trailing zeros kept, 0.000 stays 0.000).  The text is always one NUMBER lexeme. *)
 Theorem C12_number_roundtrip : forall v : decimal, dom_number v = true ->
-  number_parse (number_format v) = Ok v /\ lex_number (number_format v) = Some (zlen (number_format v)).
+  (exists w, number_parse (number_format v) = Ok w /\ dec_eqb v w = true /\ (dom_number_exact v = true -> w = v)) /\
+  lex_number (number_format v) = Some (zlen (number_format v)).
 Proof. intros v H. split; [apply number_roundtrip, H | apply len_matched_full, number_lexr, H]. Qed.
 Example C12_number_nonvacuous :
-  dom_number (0, [1; 2; 5; 0], -2) = true /\ dom_number (0, [5], -6) = true /\ dom_number (0, [0], -3) = true.
+  dom_number (0, [1; 2; 3; 0; 0], 2) = true /\ dom_number (0, [1], -30) = true /\ dom_number (0, [0], 5) = true /\
+  dom_number_exact (0, [1; 2; 5; 0], -2) = true /\ dom_number_exact (0, [0], -3) = true /\
+  dec_eqb (0, [1], 3) (0, [1; 0; 0; 0], 0) = true /\ dec_eqb (0, [1], 3) (0, [1; 0; 0], 0) = false.
 Proof. repeat split; reflexivity. Qed.
+(* the formatting as found (str(v)): a value of the domain is written in scientific notation *)
+Theorem C12_number_found_refuted :
+  exists v, dom_number v = true /\ lex_number (number_format_str v) <> Some (zlen (number_format_str v)).
+Proof. exists (0, [1], 3). split; [reflexivity | vm_compute; discriminate]. Qed.
 
 (* --- Tag, Link, MetaKey, Bool, Null, Account/Currency -------------------------------------------- *)
 Theorem C12_tag_link_roundtrip : forall v : str, dom_tag v = true ->
@@ -121,7 +133,9 @@ Theorem C12_verbatim : forall (V : Type) (parse : str -> res V) (s : str),
 Proof. intros V parse s. split; [apply sv_from_raw_text_accepts | apply sv_from_raw_text_ok]. Qed.
 
 (* after any sequence of value / raw_text assignments (values of the domain, raw texts that are accepted)
-   the raw text parses to the value; instantiated for every class *)
+   the raw text parses to the value; instantiated for every class.  For Number this exact form is stated for
+   exponents <= 0; with a positive exponent the raw text parses to a numerically equal Decimal
+   (C12_number_roundtrip), which the monitor checks with Decimal equality. *)
 (* history_ok parse format dom  (TokensProofs.v)  :=
      (forall v, dom v = true -> coherent parse (sv_from_value format v)) /\
      forall parse_first t ops, coherent parse t -> Forall (op_ok parse dom) ops ->
@@ -132,14 +146,14 @@ Theorem C12_history :
   history_ok string_parse string_format dom_string /\
   history_ok inline_parse inline_format dom_inline /\
   history_ok date_parse (date_format DatePadded) dom_date /\
-  history_ok number_parse number_format dom_number /\
+  history_ok number_parse number_format dom_number_exact /\
   history_ok tag_parse tag_format dom_tag /\ history_ok link_parse link_format dom_tag /\
   history_ok metakey_parse metakey_format dom_metakey /\
   history_ok bool_parse bool_format (fun _ => true) /\
   history_ok simple_parse simple_format (fun _ => true).
 Proof.
   repeat split; try (apply history_ok_of); intros;
-    first [apply string_roundtrip | apply inline_roundtrip | apply date_roundtrip | apply number_roundtrip
+    first [apply string_roundtrip | apply inline_roundtrip | apply date_roundtrip | apply number_roundtrip_exact
           | apply tag_roundtrip | apply link_roundtrip | apply metakey_roundtrip | apply bool_roundtrip
           | apply simple_roundtrip]; assumption.
 Qed.
